@@ -39,6 +39,8 @@ def run(prog, rep, tier):
     apply(rep, "B6", "the error slot is output-only: *out_err is assigned, never read", _ra.b6(prog), 3)
     import r_front
     apply(rep, "E11", "queries with empty operands in every position (`1 ||`, `|| 1`, `,`, `()`, `[|| 1]`, `\"%( || %)\"`, ...) compile and mean what the documentation says; no action of the scanner or parser dereferences a null tree (front end interpreted from source)", r_front.e11(prog, tier, ("E11:empty",)), 1)
+    import r_lex as _rl6
+    apply(rep, "Y6", "each of the 256 bytes, alone and between two words, is tokenised or reported by the scanner without a memory error in any action (scanner simulated; sprintf into the catch-all rule's buffer bounds-checked)", _rl6.y6(prog), 1)
     apply(rep, "B7", "the result of a dynamic downcast is dereferenced only where it was tested for null (null-path reachability on the CFG; assert is not a test)", r_api.b7(prog), 0)
     control(rep, "B7", r_api.b7, ["B7:verif_control_b7::unchecked:d"])
     maybe_mutants("C14", rep, tier)
